@@ -8,7 +8,7 @@ func init() {
 				"longitude kernel: for every real lon in [-180,180] and every hZoom 0..35 (case-split): 0 <= x < 2^h, and x is the tile containing lon unless lon is within 360*2^-51 degrees (1.6e-13, twice the worst-case evaluation error) of a tile boundary — proved in the relaxed encoding (reals + per-operation rounding error |d| <= 2^-53, underflow 2^-1075), which over-approximates IEEE arithmetic",
 				"list API, numeric: 2..3 points sharing one concrete longitude/latitude with symbolic altitudes in [-1000,1000]: element i holds the vertical cell of altitude i (vZoom 0, 25, 26, 30, 35)", "latitude row: only that it is a function of (lat, hZoom) and sits in its field; list API: 0..3 points, sample of zoom pairs",
 			},
-			Outside: []string{"numeric correctness of the latitude row y and 0 <= y < 2^h: libm (tan, cos, log) has no theory in the installed solvers and no documented error bound", "exact (non-banded) tile identity within 2^-12 tile widths of a longitude boundary: IEEE unsat did not finish in 600 s on any back end; the in-band off-by-one is a listed known finding", "lists longer than 3"},
+			Outside:     []string{"numeric correctness of the latitude row y and 0 <= y < 2^h: libm (tan, cos, log) has no theory in the installed solvers and no documented error bound", "exact (non-banded) tile identity within 2^-12 tile widths of a longitude boundary: IEEE unsat did not finish in 600 s on any back end; the in-band off-by-one is a listed known finding", "lists longer than 3"},
 			Assumptions: []string{"relaxed encoding: standard model fl(r) = r(1+d)+n for finite binary64 round-to-nearest operations"},
 		},
 		insts: func(tier string) []*Instance {
